@@ -8,9 +8,10 @@
      vm_execute_range_deref    range  [ i, j ]    (RANGE_DEREF)
      vm_execute_slice_deref    slice  [ i, j ]    (SLICE_DEREF)
 
-   All range bounds are C `int`; `a + c` etc. are int additions, written s32 (a + c): the
-   value the tree's build produces on overflow (checked by the tie), undefined by the C
-   standard. *)
+   All range bounds are C `int`.  Since fix acecad0 vm_get_slice_range forms `a + c` etc. in
+   `long long`: for int operands the 64-bit sum is the mathematical sum (|a +- c| < 2^32), which
+   is what the model writes; the bounds are tested on these exact values and the results are
+   narrowed to int -- s32 -- only when no oob is reported. *)
 From Coq Require Import ZArith List Bool.
 From NV Require Import Index.W32 Index.ArrIndex.
 Import ListNotations.
@@ -22,21 +23,32 @@ Definition range := list (Z * Z).
 (* vm_get_slice_range(range1_from=a, range1_to=b, range2_from=c, range2_to=d, &res_from,
    &res_to, &oob): returns (res_from, res_to, oob).
      if (range2_from < 0 || range2_to < 0) { *oob = 1; return; }     (fix bf51841)
-   in that case res_from/res_to are not written: every caller presets them to 0, which is what
-   the model returns.  Otherwise res_from/res_to are always written; oob is only ever set
-   (callers clear it before the call). *)
+     from = (long long)a +- c;  to = (long long)a +- d;              (fix acecad0)
+     the bound test on from/to:  { *oob = 1; return; }
+     *res_from = (int)from;  *res_to = (int)to;
+   res_from/res_to are written only when no oob is reported: every caller presets them to 0,
+   which is what the model returns on every oob path; oob is only ever set (callers clear it
+   before the call). *)
 Definition get_slice_range (a b c d : Z) : Z * Z * bool :=
   if (c <? 0) || (d <? 0) then (0, 0, true)
   else if a <? b then
-    let rf := s32 (a + c) in
-    let rt := s32 (a + d) in
-    if c <? d then (rf, rt, b <? rt)      (* C: res_to   > range1_to  =>  oob *)
-    else           (rf, rt, b <? rf)      (* C: res_from > range1_to  =>  oob *)
+    let from := a + c in
+    let to := a + d in
+    if c <? d then
+      if b <? to then (0, 0, true)        (* C: to   > range1_to  =>  oob *)
+      else (s32 from, s32 to, false)
+    else
+      if b <? from then (0, 0, true)      (* C: from > range1_to  =>  oob *)
+      else (s32 from, s32 to, false)
   else
-    let rf := s32 (a - c) in
-    let rt := s32 (a - d) in
-    if c <? d then (rf, rt, rt <? b)      (* C: res_to   < range1_to  =>  oob *)
-    else           (rf, rt, rf <? b).     (* C: res_from < range1_to  =>  oob *)
+    let from := a - c in
+    let to := a - d in
+    if c <? d then
+      if to <? b then (0, 0, true)        (* C: to   < range1_to  =>  oob *)
+      else (s32 from, s32 to, false)
+    else
+      if from <? b then (0, 0, true)      (* C: from < range1_to  =>  oob *)
+      else (s32 from, s32 to, false).
 
 (* per-dimension loop shared by vm_execute_slice_range and vm_execute_slice_slice
    (d < code->mk_slice.dims; both vectors hold 2*dims ints) *)
@@ -112,8 +124,8 @@ Definition range_deref (r : option range) (idx : list Z) : result (list Z) :=
    loop 1: pop dims ints, `if (e < 0)` oob d, addr[d].mult = e           (pop_indices)
    nil checks on slice, array, range
    loop 2: get_slice_range(from, to, addr[d].mult, addr[d].mult) -- the unsigned field is
-           passed as int: same value since e >= 0 --; `if (oob)` oob d; addr[d].mult =
-           res_from (int -> unsigned)
+           converted to the int parameter (s32 i): same value since 0 <= e <= INT_MAX --;
+           `if (oob)` oob d; addr[d].mult = res_from (int -> unsigned)
    then object_arr_dim_addr on the underlying array. *)
 Fixpoint slice_positions (d : Z) (r : range) (addr : list Z) : result (list Z) :=
   match r, addr with
